@@ -2104,8 +2104,14 @@ class Recipe:
         """
         True unless an object of this kind (a container, or a plate) has been declared under this name.
         """
-        declared = self.results.get(obj.plate.name if isinstance(obj, PlateSlicer) else obj.name)
-        return not isinstance(declared, Container if isinstance(obj, Container) else Plate)
+        if isinstance(obj, PlateSlicer):
+            obj = obj.plate
+        declared = self.results.get(obj.name)
+        if isinstance(obj, Container):
+            return not isinstance(declared, Container)
+        # (a selection is replayed on the declared plate: a plate of another geometry is not that plate)
+        return not isinstance(declared, Plate) or \
+            (declared.row_names, declared.column_names) != (obj.row_names, obj.column_names)
 
     def uses(self, *args: Container | Plate | Iterable[Container | Plate]) -> Recipe:
         """
